@@ -622,14 +622,18 @@ pub fn mty_char(m: MTy) -> char {
 /// timeouts are written in milliseconds; the HALF_MS flag adds half a millisecond (a timeout that is not a whole number of
 /// timer ticks: it may only expire at the NEXT tick, so the monitors see it as `ms + 1`)
 pub fn to_dur(ms: u64) -> Duration {
-    if ms & HALF_MS != 0 {
+    if ms == DUR_MAX {
+        Duration::MAX
+    } else if ms & HALF_MS != 0 {
         Duration::from_micros((ms & !HALF_MS) * 1000 + 500)
     } else {
         Duration::from_millis(ms)
     }
 }
 pub fn to_ticks(ms: u64) -> u64 {
-    if ms & HALF_MS != 0 {
+    if ms == DUR_MAX {
+        1 << 45
+    } else if ms & HALF_MS != 0 {
         (ms & !HALF_MS) + 1
     } else {
         ms
